@@ -57,6 +57,12 @@ def probe_pool():
         ("multisig-mixed-2of2", b("CHECKMULTISIG", "NOT"), [b"", b"", DER, b"\x52", GARBAGEKEY, KEY, b"\x52"]),
         ("multisigverify-emptysig", b("CHECKMULTISIGVERIFY", "1"), [b"", b"", b"\x51", KEYU, b"\x51"]),
         ("checksig-emptysig-badkey-verify", b("CHECKSIGVERIFY", "1"), [b"", GARBAGEKEY]),
+        ("num5-minimal", b(b"\xff\xff\xff\x7f", "1ADD", "1ADD", "DROP", "1"), []),
+        ("num5-minimal-neg", b(b"\xff\xff\xff\xff", "1SUB", "1SUB", "DROP", "1"), []),
+        ("num5-operand", b("1ADD", "DROP", "1"), [b"\x00\x00\x00\x80\x00"]),
+        ("num5-operand-not", b("NOT"), [b"\x00\x00\x00\x80\x00"]),
+        ("num-nonminimal-not", b("NOT", "NOT"), [b"\x01\x00"]),
+        ("num-nonminimal-within", b("WITHIN"), [b"\x01", b"\x02", b"\x03\x00"]),
         ("codesep", b("1", "CODESEPARATOR"), []),
         ("findanddelete", G.push(DER) + b(KEY, "CHECKSIG", "NOT"), []),
         ("minimalif", b("IF", "1", "ELSE", "1", "ENDIF"), [b"\x02"]),
